@@ -89,6 +89,12 @@ def lean_check(prop, cfg, tier):
     with Lock("lake"):
         run([sys.executable, os.path.join(ROOT, "checks", "gen_main.py")], cwd=ROOT)
         rc, out = run(["lake", "build", module, "gmxdriver"], cwd=LEAN, timeout=3600)
+        # private copy of the driver: another check may relink gmxdriver while this one runs
+        if rc == 0 and os.path.exists(DRIVER):
+            os.makedirs(os.path.join(ROOT, "replays"), exist_ok=True)
+            priv = os.path.join(ROOT, "replays", f".gmxdriver-{os.getpid()}")
+            shutil.copy2(DRIVER, priv)
+            globals()["DRIVER_PRIVATE"] = priv
     res["log"] = out[-6000:]
     props_file = os.path.join(LEAN, *module.split(".")) + ".lean"
     src = strip_comments(open(props_file).read())
@@ -199,7 +205,7 @@ def parse_harness(out):
 def drive(reqs):
     """Feed request lines to the Lean driver; returns response lines."""
     if not reqs: return []
-    rc, out = run([DRIVER], inp="\n".join(reqs) + "\n", timeout=3600)
+    rc, out = run([globals().get("DRIVER_PRIVATE", DRIVER)], inp="\n".join(reqs) + "\n", timeout=3600)
     return out.split("\n")[:len(reqs)]
 
 
@@ -304,6 +310,16 @@ def write_replay(prop, seed, kind, payload_lines):
 
 
 def main(argv):
+    try:
+        return _main(argv)
+    finally:
+        p = globals().get("DRIVER_PRIVATE")
+        if p and os.path.exists(p):
+            try: os.unlink(p)
+            except OSError: pass
+
+
+def _main(argv):
     if len(argv) < 2:
         print(__doc__); return 2
     prop = argv[0]
